@@ -851,6 +851,8 @@ func pMutate(r *Rng, s []byte) ([]byte, string) {
 var pRawAlpha = append([]byte("table BEGINCOMIT:[]'\"( )-.,"),
 	0, '\t', '\n', '\v', '\f', '\r', 0xC2, 0x85, 0xA0, 0xE1, 0x9A, 0x80, 0xE2, 0x81, 0x9F, 0xA8, 0xAF, 0xE3, 0xF0, 0xFF, 'a', '1')
 
+var pValueTokAlpha = []byte{'B', 'B', '\'', '\'', '\'', '1', '0', 'x', 'b', ' ', 0, ':', '[', ']', '"'}
+
 var pRawPrefixes = []string{"table ", "BEGIN", "COMMIT", "BEGIN ", "COMMI"}
 
 // UTF-8 encodings of the Unicode white space strings.Fields splits on (besides ASCII)
@@ -893,6 +895,19 @@ func pGenRaw(r *Rng) ([]byte, string) {
 			sb.WriteString(Pick(r, pUniJunk))
 		}
 		return []byte(sb.String()), "unicode"
+	}
+	if r.Chance(12) {
+		// value tokens around the cut of a quoted value (`B'…'`, quotes in odd places, NUL, several columns)
+		b := []byte(Pick(r, []string{"table s.t: INSERT: a[t]:", "table s.t: UPDATE: old-key: k[bit]:B'1' new-tuple: a[bit varying]:", "table \"B\".\"B'\": DELETE: \"B\"[\"B\"]:"}))
+		for k := r.Range(1, 3); k > 0; k-- {
+			for n := r.Range(0, 7); n > 0; n-- {
+				b = append(b, Pick(r, pValueTokAlpha))
+			}
+			if k > 1 {
+				b = append(b, Pick(r, []string{" b[t]:", " B[B]:", " ", " B", " b[t[]]:B"})...)
+			}
+		}
+		return b, "valuetok"
 	}
 	tag := "plain"
 	b := []byte{}
@@ -1017,10 +1032,8 @@ func parserMonitor(lines, outs []string, m *Model) []Violation {
 		if got == e {
 			continue
 		}
-		f, _ := m.Do("parser expectf4 " + toks)
+		// (F4, bit strings decoded as '…, is repaired: such a deviation is a plain violation now)
 		switch {
-		case got == f:
-			add(Violation{"C09", "bit string decoded as '… (F4) on " + pShort(w[2]) + ": got " + pShort(got) + " want " + pShort(e), "bitstring_prefix"})
 		case pHasEmptyTuple(ch):
 			add(Violation{"C09", "printed tuple without attributes rejected/misdecoded on " + pShort(w[2]) + ": got " + pShort(got) + " want " + pShort(e), "empty_tuple"})
 		default:
